@@ -288,8 +288,9 @@ class Ctx:
             "coverage": cov, "assumptions": self.assumptions, "wall_s": round(wall, 2),
             "violations": len(self.violations),
         }
-        os.makedirs(EVID, exist_ok=True)
-        with open(os.path.join(EVID, f"{self.pid}.json"), "w") as f:
+        evid = EVID if not self.pid.startswith("X") else os.path.join(WORK, "evidence_extra")   # X.. = stand-alone runs of sub-models; evidence/ holds listed properties only
+        os.makedirs(evid, exist_ok=True)
+        with open(os.path.join(evid, f"{self.pid}.json"), "w") as f:
             json.dump(ev, f, indent=1, sort_keys=True, default=str)
         for fid, h in sorted(self.known_hits.items()):
             print(f"KNOWN-FINDING: property={self.pid} {fid} x{h['count']} e.g. {json.dumps(h['example'], default=str)[:300]}")
